@@ -173,6 +173,18 @@ def _recipes():
     add("tocsr", "{C}.tocsr", lambda S, np, x, y, f: x.tocsr(), lambda np, a, b, f: a)
     add("tocsc", "{C}.tocsc", lambda S, np, x, y, f: x.tocsc(), lambda np, a, b, f: a)
     add("to_scipy", "{C}.to_scipy_sparse", lambda S, np, x, y, f: x.to_scipy_sparse(), lambda np, a, b, f: a)
+    # ---- histories: a cache-enabled zero-filled array whose scipy exports / transposes / reshapes were cached, then the
+    # documented "same entries, other fill value" copy COO(x, fill_value=f); the copy must not hand out x's cached results
+    add("hist_copy_tocsc", "COO.tocsc", lambda S, np, x, y, f: _hist_copy(S, x, f, ("tocsr", "tocsc")).tocsc(), lambda np, a, b, f: a, fmts=("coo",))
+    add("hist_copy_tocsc_only", "COO.tocsc", lambda S, np, x, y, f: _hist_copy(S, x, f, ("tocsc",)).tocsc(), lambda np, a, b, f: a, fmts=("coo",))
+    add("hist_copy_tocsr_then_tocsc", "COO.tocsc", lambda S, np, x, y, f: _hist_copy(S, x, f, ("tocsr",)).tocsc(), lambda np, a, b, f: a, fmts=("coo",))
+    add("hist_copy_tocsr", "COO.tocsr", lambda S, np, x, y, f: _hist_copy(S, x, f, ("tocsr", "tocsc")).tocsr(), lambda np, a, b, f: a, fmts=("coo",))
+    add("hist_copy_to_scipy", "COO.to_scipy_sparse", lambda S, np, x, y, f: _hist_copy(S, x, f, ("tocsr", "tocsc")).to_scipy_sparse(),
+        lambda np, a, b, f: a, fmts=("coo",))
+    add("hist_copy_transpose", "COO.transpose", lambda S, np, x, y, f: _hist_copy(S, x, f, ("T",)).transpose((1, 0)), lambda np, a, b, f: a.T, fmts=("coo",))
+    add("hist_copy_reshape", "COO.reshape", lambda S, np, x, y, f: _hist_copy(S, x, f, ("flat",)).reshape((9,)), lambda np, a, b, f: a.reshape((9,)), fmts=("coo",))
+    add("hist_cached_tocsc", "COO.tocsc", lambda S, np, x, y, f: _enable(x).tocsc(), lambda np, a, b, f: a, fmts=("coo",))
+    add("hist_cached_twice_tocsc", "COO.tocsc", lambda S, np, x, y, f: _twice(_enable(x), "tocsc"), lambda np, a, b, f: a, fmts=("coo",))
     # ---- joins (Consistent)
     add("concatenate0", "common.concatenate", lambda S, np, x, y, f: S.concatenate([x, y]), lambda np, a, b, f: np.concatenate([a, b]), n=2)
     add("concatenate1", "common.concatenate", lambda S, np, x, y, f: S.concatenate([x, y], axis=1), lambda np, a, b, f: np.concatenate([a, b], axis=1), n=2)
@@ -347,6 +359,32 @@ def _dok_setitem_ref(np, a, f):
     out[1, 1] = 7
     out[2, 2] = f
     return out
+
+
+def _hist_copy(S, x, f, warm):
+    """x0: the zero-filled, cache-enabled array with x's stored entries; warm its caches; return COO(x0, fill_value=f)"""
+    x0 = S.COO(x.coords, x.data, shape=x.shape, has_duplicates=False, sorted=True, cache=True)
+    for w in warm:
+        if w == "T":
+            x0.transpose((1, 0))
+        elif w == "flat":
+            x0.reshape((9,))
+        else:
+            getattr(x0, w)()
+    return S.COO(x0, fill_value=f)
+
+
+def _enable(x):
+    x.enable_caching()
+    return x
+
+
+def _twice(x, meth):
+    try:
+        getattr(x, meth)()
+    except ValueError:
+        pass
+    return getattr(x, meth)()
 
 
 def _npz_roundtrip(S, np, x, y, f):
